@@ -4,7 +4,10 @@ For every attribute type / declaration option one entity is mapped on a SQLite f
 second, independently mapped Database on the same file plays the fresh session.  For each generated value the
 monitor records: the value the writing session sees after flush() (the property's reference point), the value a
 fresh session loads, the value a projection query returns, and whether get(attr=ref) / select(attr=ref) /
-select(lambda: attr == ref) find the row.  All must equal the reference (same type and ==).  A difference is
+select(lambda: attr == ref) find the row.  All must equal the reference (same type and ==).  A second part runs
+multi-step write programs on Json/array attributes (assign another attribute first, assign a tracked value read
+from another object or attribute, re-assign the own value, mutate in place through either object, flush/commit
+in between) and compares every attribute after the final flush with a fresh session and a projection.  A difference is
 re-judged with deviation rules (one per known mechanism) and is a finding only if the rule reproduces exactly
 what pony returned.  For the providers that cannot execute here the pure codec functions wired into the drivers
 are round-tripped directly (stub driver modules under shims/c07_codec_stubs only make the modules importable).
@@ -32,12 +35,22 @@ META = {
             'many-digit Decimals, microsecond edges, negative and >24h and huge timedeltas, year 1/999/1000/9999, empty '
             'and long strings/bytes with NUL, quotes, astral characters, nested Json, top-level Json scalars) plus '
             'seeded random values; distinct = distinct (declaration, type, repr(value)); trivial = values pony rejects '
-            'at validation or flush (counted, not judged).',
+            'at validation or flush (counted, not judged). Multi-step part: write programs over one entity with two '
+            'Json, two IntArray, a StrArray, a FloatArray and two scalar attributes, 2-3 objects (loaded / created / '
+            'inserted): small-scope exhaustive patterns = value kind x object state x pre-step {none, scalar assignment, '
+            'other tracked attribute mutated, flush, scalar+flush, scalar+commit} x source {keep, plain value, tracked value '
+            'of the other object, of the twin attribute, of the other object\'s twin attribute, own value re-assigned} x '
+            '{no, flush, commit} in between x in-place mutation through {target, source, both, none}, plus seeded random '
+            'programs (3-13 steps: scalar/plain/aliasing assignments, dict and list mutators incl. nested paths and '
+            'slices, reads, flush, commit); every attribute of every object is compared after the final flush.',
     'assumptions': [
         'reference point is the value the writing session reads after flush(), as the property states',
         'fresh session = a second Database object mapped on the same SQLite file (new connection, new converters)',
         'NaN (float, Decimal, inside arrays) is no_reference; Json restricted to JSON-model values',
         'a raised exception on write or reload is loud and only counted',
+        'multi-step programs use only list/dict arguments and plain mutator methods: augmented assignment on aliases and '
+        'tuple/generator arguments are C28 findings (C28-ALIAS-AUGASSIGN-UNTRACKED, C28-ITERABLE-ARG-NESTED-UNWRAPPED) '
+        'and are left to C28',
     ],
     'shims': ['c07_codec_stubs'],
     'exhaustive_tiers': [],
@@ -565,6 +578,315 @@ class Runner(object):
                 ctx.violation(witness('lookup:' + name, False), mechanism='C07-param-lookup-misses-%s' % t)
 
 
+
+# ----------------------------------------------------------------------------------------------------
+# multi-step write patterns on Json / array attributes: the attribute value the program sees after the last
+# flush() must be what a fresh session reads, whatever sequence of assignments (plain value, value read from
+# another object's or another attribute's tracked value, re-assignment of the own tracked value), in-place
+# mutations (through either object), scalar assignments, flushes and commits led to it.
+TRACKED = {'j': 'json', 'j2': 'json', 'ia': 'int', 'ia2': 'int', 'sa': 'str', 'fa': 'float'}
+TWIN = {'j': 'j2', 'j2': 'j', 'ia': 'ia2', 'ia2': 'ia'}
+DOC_ATTRS = ('title', 'n', 'j', 'j2', 'ia', 'ia2', 'sa', 'fa')
+
+
+def define_doc(db):
+    from pony import orm
+    from pony.orm import ormtypes as T
+    return type('Doc', (db.Entity,), {
+        'title': orm.Optional(str), 'n': orm.Optional(int),
+        'j': orm.Optional(T.Json), 'j2': orm.Optional(T.Json),
+        'ia': orm.Optional(T.IntArray), 'ia2': orm.Optional(T.IntArray),
+        'sa': orm.Optional(T.StrArray), 'fa': orm.Optional(T.FloatArray)})
+
+
+def doc_init(k, json_list=False):
+    j = [k, {'a': 1, 'm': [k]}, [1, 2]] if json_list else {'k': k, 'l': [1, 2], 'd': {'x': [k], 'y': 'v'}}
+    return {'title': 't%d' % k, 'n': k, 'j': j, 'j2': {'z': k, 'q': [k]}, 'ia': [k, 2, 3], 'ia2': [k + 10],
+            'sa': ['s%d' % k, 'b'], 'fa': [k + 0.5, 2.0]}
+
+
+def new_item(rng, kind, depth=0):
+    if kind == 'int': return rng.randrange(-50, 50)
+    if kind == 'str': return rng.choice(['a', 'b', 'zz', '', 'ü', "q'", 'k%d' % rng.randrange(9)])
+    if kind == 'float': return rng.randrange(-20, 20) * 0.5
+    r = rng.random()
+    if depth > 1 or r < 0.5: return rng.choice([0, 1, -7, 2.5, 'v', '', None, True, False, 'w%d' % rng.randrange(5)])
+    if r < 0.75: return [new_item(rng, 'json', depth + 1) for _ in range(rng.randrange(0, 3))]
+    return {rng.choice(['a', 'b', 'c', 'k', 'l']): new_item(rng, 'json', depth + 1) for _ in range(rng.randrange(0, 3))}
+
+
+def choose_mutation(rng, live, kind):
+    """pick (path, op, args) applicable to the live value (plain view), or None"""
+    path, cur = [], live
+    if kind == 'json':
+        while isinstance(cur, (dict, list)) and cur and rng.random() < 0.45:
+            if isinstance(cur, dict):
+                k = rng.choice(sorted(cur))
+            else:
+                k = rng.randrange(len(cur))
+            if not isinstance(cur[k], (dict, list)): break
+            path.append(k); cur = cur[k]
+    if isinstance(cur, dict):
+        keys = sorted(cur)
+        ops = ['set_new', 'update', 'setdefault']
+        if keys: ops += ['set_old', 'del', 'pop', 'set_old']
+        if rng.random() < 0.05: ops.append('clear')
+        op = rng.choice(ops)
+        nk = rng.choice(['n1', 'n2', 'k', 'l', 'a'])
+        if op == 'set_new': return path, '__setitem__', [nk, new_item(rng, 'json')]
+        if op == 'set_old': return path, '__setitem__', [rng.choice(keys), new_item(rng, 'json')]
+        if op == 'del': return path, '__delitem__', [rng.choice(keys)]
+        if op == 'pop': return path, 'pop', [rng.choice(keys)]
+        if op == 'update': return path, 'update', [{nk: new_item(rng, 'json'), 'u': new_item(rng, 'json')}]
+        if op == 'setdefault': return path, 'setdefault', [nk, new_item(rng, 'json')]
+        return path, 'clear', []
+    if isinstance(cur, list):
+        n = len(cur)
+        ops = ['append', 'append', 'extend', 'insert']
+        if n: ops += ['setitem', 'setitem', 'delitem', 'pop', 'reverse', 'slice_del', 'remove']
+        if n and kind == 'json': ops.append('slice_set')       # TrackedArray refuses slice assignment (loud)
+        if n > 1 and all(type(x) is type(cur[0]) and isinstance(x, (int, str, float)) and not isinstance(x, bool) for x in cur):
+            ops.append('sort')
+        if rng.random() < 0.05: ops.append('clear')
+        op = rng.choice(ops)
+        it = lambda: new_item(rng, kind)
+        if op == 'append': return path, 'append', [it()]
+        if op == 'extend': return path, 'extend', [[it() for _ in range(rng.randrange(0, 3))]]
+        if op == 'insert': return path, 'insert', [rng.randrange(0, n + 1), it()]
+        if op == 'setitem': return path, '__setitem__', [rng.randrange(n), it()]
+        if op == 'delitem': return path, '__delitem__', [rng.randrange(n)]
+        if op == 'pop': return path, 'pop', []
+        if op == 'reverse': return path, 'reverse', []
+        if op == 'sort': return path, 'sort', []
+        if op == 'remove':
+            c = [x for x in cur if not isinstance(x, (dict, list))]
+            if not c: return path, 'append', [it()]
+            return path, 'remove', [rng.choice(c)]
+        a = rng.randrange(0, n); b = rng.randrange(a, n + 1)
+        if op == 'slice_set': return path, '__setitem__', [{'slice': [a, b]}, [it() for _ in range(rng.randrange(0, 3))]]
+        if op == 'slice_del': return path, '__delitem__', [{'slice': [a, b]}]
+        return path, 'clear', []
+    return None
+
+
+def fixed_mutations(live, kind):
+    """two deterministic in-place changes for the enumerated patterns"""
+    if isinstance(live, dict):
+        scalars = [kk for kk in sorted(live) if not isinstance(live[kk], (dict, list))]
+        muts = [([], '__setitem__', [scalars[0] if scalars else 'k', 'changed'])]
+        for kk in sorted(live):
+            if isinstance(live[kk], list): muts.append(([kk], 'append', [99])); break
+        else: muts.append(([], '__setitem__', ['added', [1]]))
+        return muts
+    item = {'int': 99, 'str': 'changed', 'float': 99.5, 'json': 'changed'}[kind]
+    muts = [([], 'append', [item])]
+    if live: muts.append(([], '__setitem__', [0, item]))
+    return muts
+
+
+class MultiStep(object):
+    def __init__(self, ctx, filename):
+        from pony import orm
+        self.ctx, self.orm = ctx, orm
+        self.db = orm.Database(); self.W = define_doc(self.db)
+        self.db.bind('sqlite', filename, create_db=True); self.db.generate_mapping(create_tables=True)
+        self.db2 = orm.Database(); self.R = define_doc(self.db2)
+        self.db2.bind('sqlite', filename); self.db2.generate_mapping(create_tables=False)
+
+    def close(self):
+        for d in (self.db, self.db2):
+            try: d.disconnect()
+            except Exception: pass
+
+    @staticmethod
+    def snapshot(objs):
+        return [{a: unwrap(getattr(o, a)) for a in DOC_ATTRS} for o in objs]
+
+    def apply(self, step, objs):
+        orm = self.orm
+        kind = step[0]
+        if kind == 'flush': orm.flush(); return
+        if kind == 'commit': orm.commit(); return
+        if kind == 'scalar': setattr(objs[step[1]], step[2], step[3]); return
+        if kind == 'plain': setattr(objs[step[1]], step[2], copy.deepcopy(step[3])); return
+        if kind == 'from': setattr(objs[step[1]], step[2], getattr(objs[step[3]], step[4])); return
+        if kind == 'read': getattr(objs[step[1]], step[2]); return
+        if kind == 'mut':
+            o = objs[step[1]]
+            attr = type(o)._adict_[step[2]]
+            if o._status_ == 'modified' and not (o._wbits_ & o._bits_[attr]): self.ctx.count('multistep.inplace_on_already_modified_object')
+            tgt = getattr(o, step[2])
+            for k in step[3]: tgt = tgt[k]
+            args = [slice(*a['slice']) if isinstance(a, dict) and list(a) == ['slice'] else copy.deepcopy(a) for a in step[5]]
+            getattr(tgt, step[4])(*args)
+            return
+        raise AssertionError(step)
+
+    def run_program(self, prog, gen=None):
+        """prog = {'objs': [{'state', 'init'}], 'steps': [...]}; gen(rng-driven callback) may append steps adaptively.
+        Returns nothing; reports through ctx."""
+        ctx, orm = self.ctx, self.orm
+        W, R = self.W, self.R
+        ids = [None] * len(prog['objs'])
+        try:
+            with orm.db_session:
+                made = []
+                for i, od in enumerate(prog['objs']):
+                    if od['state'] == 'loaded': made.append((i, W(**copy.deepcopy(od['init']))))
+                orm.flush()
+                for i, o in made: ids[i] = o.id
+            executed = []
+            with orm.db_session:
+                objs = []
+                for i, od in enumerate(prog['objs']):
+                    if od['state'] == 'loaded': objs.append(W[ids[i]])
+                    else:
+                        o = W(**copy.deepcopy(od['init']))
+                        objs.append(o)
+                if any(od['state'] == 'inserted' for od in prog['objs']): orm.flush()
+                steps = prog['steps'] if gen is None else gen(objs)
+                for st in steps:
+                    executed.append(st)
+                    self.apply(st, objs)
+                orm.flush()
+                ref = self.snapshot(objs)
+                ids = [o.id for o in objs]
+        except Exception as e:
+            ctx.count('multistep.program_raised')
+            ctx.count('multistep.program_raised.%s' % type(e).__name__)
+            lst = ctx.extra.setdefault('multistep_loud_samples', [])
+            if len(lst) < 6: lst.append({'program': prog if gen is None else dict(prog, steps=executed),
+                                         'error': '%s: %s' % (type(e).__name__, str(e)[:200])})
+            return
+        if gen is not None: prog = dict(prog, steps=executed)
+        ctx.count('multistep.programs')
+        ctx.case(('C07-multistep', prog), sample={'multistep_program': prog} if ctx.counters.get('multistep.programs', 0) % 400 == 1 else None)
+        for st in prog['steps']:
+            if st[0] == 'from':
+                ctx.count('multistep.assign_tracked_value_of_other_object' if st[1] != st[3] else
+                          ('multistep.reassign_own_tracked_value' if st[2] == st[4] else 'multistep.assign_tracked_value_of_other_attribute'))
+            elif st[0] == 'mut': ctx.count('multistep.inplace_mutations')
+        try:
+            with orm.db_session:
+                fresh = self.snapshot([R[i] for i in ids])
+                proj = [{a: [unwrap(x) for x in orm.select(getattr(d, a) for d in R if d.id == i)] for a in TRACKED} for i in ids]
+        except Exception as e:
+            ctx.count('multistep.reload_raised.%s' % type(e).__name__)
+            return
+        for oi in range(len(ids)):
+            for a in DOC_ATTRS:
+                ctx.count('multistep.values_compared')
+                kind = TRACKED.get(a)
+                eq = json_eq if kind == 'json' else strict_eq
+                if not eq(ref[oi][a], fresh[oi][a]):
+                    ctx.count('multistep.fresh_differs')
+                    ctx.violation({'multistep_program': prog, 'object': oi, 'attr': a, 'after_flush': repr(ref[oi][a])[:300],
+                                   'fresh_session': repr(fresh[oi][a])[:300], 'event': 'fresh_read'},
+                                  mechanism='C07-multistep-fresh-read-differs-%s' % (kind or 'scalar'))
+                elif kind and not (len(proj[oi][a]) == 1 and eq(fresh[oi][a], proj[oi][a][0])):
+                    ctx.count('multistep.projection_differs')
+                    ctx.violation({'multistep_program': prog, 'object': oi, 'attr': a, 'after_flush': repr(ref[oi][a])[:300],
+                                   'projection': repr(proj[oi][a])[:300], 'event': 'projection'},
+                                  mechanism='C07-multistep-projection-differs-%s' % kind)
+
+
+def enumerated_programs():
+    """small-scope exhaustive write patterns (see META rule)"""
+    out = []
+    for akind in ('j:dict', 'j:list', 'ia', 'sa', 'fa'):
+        attr = akind.split(':')[0]
+        kind = TRACKED[attr]
+        twin = TWIN.get(attr)
+        for state in ('loaded', 'created', 'inserted'):
+            for pre in ('none', 'scalar', 'other_tracked', 'flush', 'scalar_flush', 'scalar_commit'):
+                for source in ('keep', 'plain', 'alias_obj', 'alias_twin', 'alias_obj_twin', 'reassign'):
+                    if source in ('alias_twin', 'alias_obj_twin') and not twin: continue
+                    for mid in ('none', 'flush', 'commit'):
+                        for through in ('target', 'source', 'both', 'none'):
+                            aliased = source.startswith('alias')
+                            if through in ('source', 'both') and not aliased: continue
+                            if through == 'none' and source == 'keep': continue
+                            if mid != 'none' and source == 'keep' and pre in ('flush', 'none'): continue
+                            out.append(dict(akind=akind, attr=attr, kind=kind, state=state, pre=pre, source=source, mid=mid, through=through))
+    return out
+
+
+def pattern_steps(pat, objs):
+    """steps of an enumerated pattern, built against the live objects (target = object 0, other = object 1)"""
+    attr, kind, twin = pat['attr'], pat['kind'], TWIN.get(pat['attr'])
+    steps = []
+    def emit(st): steps.append(st); return st
+    pre = pat['pre']
+    if pre in ('scalar', 'scalar_flush', 'scalar_commit'): yield emit(['scalar', 0, 'title', 'changed title'])
+    if pre == 'other_tracked': yield emit(['mut', 0, 'sa', [], 'append', ['pre']])
+    if pre in ('flush', 'scalar_flush'): yield emit(['flush'])
+    if pre == 'scalar_commit': yield emit(['commit'])
+    if pre in ('scalar_flush', 'scalar_commit'): yield emit(['scalar', 0, 'n', 777])
+    src = None
+    s = pat['source']
+    if s == 'plain':
+        plain = {'json': {'p': 1, 'l': [5]}, 'int': [7, 8], 'str': ['p', 'q'], 'float': [7.5]}[kind]
+        if pat['akind'] == 'j:list': plain = [5, {'p': 1}, [6]]
+        yield emit(['plain', 0, attr, plain])
+    elif s == 'alias_obj': src = (1, attr); yield emit(['from', 0, attr, 1, attr])
+    elif s == 'alias_twin': src = (0, twin); yield emit(['from', 0, attr, 0, twin])
+    elif s == 'alias_obj_twin': src = (1, twin); yield emit(['from', 0, attr, 1, twin])
+    elif s == 'reassign': yield emit(['from', 0, attr, 0, attr])
+    if pat['mid'] == 'flush': yield emit(['flush'])
+    if pat['mid'] == 'commit': yield emit(['commit'])
+    targets = {'target': [(0, attr)], 'source': [src], 'both': [(0, attr), src], 'none': []}[pat['through']]
+    for n, (oi, a) in enumerate(targets):
+        live = unwrap(getattr(objs[oi], a))
+        for path, op, args in fixed_mutations(live, TRACKED[a])[: (2 if n == 0 else 1)]:
+            yield emit(['mut', oi, a, path, op, args])
+
+
+def random_program_steps(rng, objs, nsteps):
+    nobj = len(objs)
+    for _ in range(nsteps):
+        r = rng.random()
+        o = rng.randrange(nobj)
+        a = rng.choice(sorted(TRACKED))
+        if r < 0.08: yield ['scalar', o, 'title', rng.choice(['x', 'y', 'zz', ''])]
+        elif r < 0.14: yield ['scalar', o, 'n', rng.choice([None, rng.randrange(100)])]
+        elif r < 0.22: yield ['flush']
+        elif r < 0.27: yield ['commit']
+        elif r < 0.32: yield ['read', o, a]
+        elif r < 0.40:
+            kind = TRACKED[a]
+            val = new_item(rng, 'json', 0) if kind == 'json' else [new_item(rng, kind) for _ in range(rng.randrange(0, 4))]
+            if kind == 'json' and not isinstance(val, (dict, list)): val = {'v': val}
+            yield ['plain', o, a, val]
+        elif r < 0.58:
+            so = rng.randrange(nobj)
+            sa = rng.choice([x for x in TRACKED if TRACKED[x] == TRACKED[a]])
+            yield ['from', o, a, so, sa]
+        else:
+            m = choose_mutation(rng, unwrap(getattr(objs[o], a)), TRACKED[a])
+            if m is not None: yield ['mut', o, a, m[0], m[1], m[2]]
+
+
+def multistep(ctx, nrandom):
+    fn = os.path.join(ctx.tmp(), 'c07-multistep-%d.sqlite' % ctx.shard)
+    ms = MultiStep(ctx, fn)
+    try:
+        pats = [p for i, p in enumerate(enumerated_programs()) if i % ctx.nshards == ctx.shard]
+        for pat in pats:
+            prog = {'pattern': pat, 'objs': [{'state': pat['state'], 'init': doc_init(1, pat['akind'] == 'j:list')},
+                                             {'state': 'loaded', 'init': doc_init(2, pat['akind'] == 'j:list')}], 'steps': None}
+            ms.run_program(prog, gen=lambda objs: pattern_steps(pat, objs))
+            ctx.count('multistep.enumerated_patterns')
+        rng = ctx.subrng('multistep', ctx.shard)
+        for n in range(nrandom):
+            nobj = rng.choice([2, 2, 3])
+            prog = {'objs': [{'state': rng.choice(['loaded', 'loaded', 'created', 'inserted']), 'init': doc_init(k + 1, rng.random() < 0.3)}
+                             for k in range(nobj)], 'steps': None}
+            nsteps = rng.randrange(3, 14)
+            ms.run_program(prog, gen=lambda objs: random_program_steps(rng, objs, nsteps))
+            ctx.count('multistep.random_programs')
+    finally:
+        ms.close()
+
 # ----------------------------------------------------------------------------------------------------
 # codec round trips for providers that cannot execute here
 def codec_roundtrips(ctx, rng, nrand):
@@ -707,6 +1029,7 @@ def run(ctx):
                 r.one(s, v)
     finally:
         r.close()
+    multistep(ctx, 300 if quick else 1500)
     codec_roundtrips(ctx, ctx.subrng('codec', ctx.shard), nrand * 4)
 
     types = sorted({s['type'] for s in accepted})
@@ -717,11 +1040,22 @@ def run(ctx):
     ctx.floor('lookup.found', 10000)
     ctx.floor('codec.roundtrips', 1500)
     ctx.floor('decl.mapped', 70)
+    ctx.floor('multistep.programs', 300 if quick else 1200)
+    ctx.floor('multistep.values_compared', 4000)
+    ctx.floor('multistep.inplace_on_already_modified_object', 100)
+    ctx.floor('multistep.assign_tracked_value_of_other_object', 100)
+    ctx.floor('multistep.assign_tracked_value_of_other_attribute', 40)
+    ctx.floor('multistep.reassign_own_tracked_value', 40)
 
 
 def replay(ctx, witness):
     if 'codec' in witness:
         codec_roundtrips(ctx, ctx.subrng('codec', 0), 4)
+        return
+    if 'multistep_program' in witness:
+        ms = MultiStep(ctx, os.path.join(ctx.tmp(), 'c07-replay-ms.sqlite'))
+        try: ms.run_program(witness['multistep_program'])
+        finally: ms.close()
         return
     if witness.get('value_truncated_from'):
         print('witness value was truncated (%d chars); cannot be replayed from the file' % witness['value_truncated_from']); return
